@@ -2,7 +2,7 @@
 import itertools
 import os
 import json
-from typing import List, Literal, Optional, Set, Union
+from typing import Dict, List, Literal, Optional, Set, Union
 
 from hypothesis import strategies as st
 from pydantic import Extra, Field, NonNegativeInt, PositiveFloat, ValidationError
@@ -442,6 +442,84 @@ def check_extra_rule(rec):
         rec.case(nt_key=["extra", how], classes=["extra_rule", "extra_forbid_parent"], sample=case)
 
 
+# ---- overrides that are not spelled as a new annotation ----------------------------------------------------------
+CONST_VALUES = ["a", "b", 1, True, ["a"], None]
+BARE_VALUES = ["misc", "a", 1, 0.5, True, ["a"]]
+# plain (non-strict) types, as e.g. `allowed_units: List[str]` of the installed schemas: pydantic infers a new field
+# from a bare assignment when the inner type matches
+PLAIN = {"plain:List[str]": List[str], "plain:Set[str]": Set[str], "plain:Optional[List[str]]": Optional[List[str]],
+         "plain:Dict[str,int]": Dict[str, int], "plain:List[int]": List[int], "plain:str": str, "plain:int": int,
+         "plain:Optional[int]": Optional[int]}
+ASSIGNED = {  # field given the usual pydantic way: x: T = Field(...)
+    "int": (int, None), "int,ge0": (int, dict(ge=0)), "int,ge-10": (int, dict(ge=-10)), "int,le5": (int, dict(le=5)),
+    "str": (T.Str, None), "str,re[a-z]": (T.Str, dict(regex="^[a-z]+$")), "str,re[a-z0-9]": (T.Str, dict(regex="^[a-z0-9]+$")),
+    "int,alias": (int, dict(alias="fileSize")), "List[int],min1": (List[int], dict(min_items=1)), "List[int]": (List[int], None),
+}
+
+
+def _leaf_vs_parent(p, c, case, sig):
+    """Every corpus value (and no value at all) the child accepts must dump to something the parent accepts."""
+    n = 0
+    for v in [_NODEFAULT] + CORPUS:
+        try:
+            o = c() if v is _NODEFAULT else c(x=v)
+        except (ValidationError, TypeError, ValueError):
+            continue
+        n += 1
+        raw = bytes(o)
+        try:
+            p.parse_raw(raw)
+        except Exception as e:  # noqa: BLE001
+            shown = "no value" if v is _NODEFAULT else repr(v)
+            raise Violation(sig, f"{case}: child accepts x={shown} (serialised {raw[:80]!r}) but the parent rejects it: {str(e)[:160]}",
+                            "refused when the plugin is checked, or parent accepts")
+    return n
+
+
+def check_special(kind, pname, ptype, arg, rec):
+    """kind const: @add_const_fields({'x': arg}) (no override=True); bare: class body `x = arg` without annotation;
+    assigned: parent and child give `x: T = Field(...)` (arg = name of the child's entry in ASSIGNED)."""
+    case = dict(kind="special", how=kind, parent=pname, arg=arg)
+    try:
+        if kind == "assigned":
+            pt, pkw = ASSIGNED[pname]
+            ct, ckw = ASSIGNED[arg]
+            p = mk(MetadataSchema, pt, plugin=True, default=Field(..., **pkw) if pkw else _NODEFAULT)
+            c = mk(p, ct, plugin=True, default=Field(..., **ckw) if ckw else _NODEFAULT)
+        else:
+            p = mk(MetadataSchema, ptype, plugin=True)
+            if kind == "const":
+                from metador_core.schema.decorators import add_const_fields
+
+                c = add_const_fields({"x": arg})(mk(p, None, plugin=True))
+            else:
+                c = mk(p, None, plugin=True, default=arg)
+        check_types(p)
+        check_types(c)
+    except (TypeError, ValueError):
+        rec.case(nt_key=None, classes=[f"special_{kind}", "refused"], sample=None)
+        return
+    n = _leaf_vs_parent(p, c, case, f"C13:child-accepts-parent-rejects:{kind}")
+    rec.case(nt_key=["special", kind, pname, repr(arg)], classes=[f"special_{kind}", f"special_{kind}_accepted"],
+             sample=dict(case, outcome="accepted", values_accepted_by_child=n))
+
+
+def run_special(rec):
+    P = pool()
+    jobs = [("const", pn, P[pn], v) for pn in sorted(P) for v in CONST_VALUES]
+    jobs += [("bare", pn, P[pn], v) for pn in sorted(P) for v in BARE_VALUES]
+    jobs += [("bare", pn, PLAIN[pn], v) for pn in sorted(PLAIN) for v in BARE_VALUES]
+    jobs += [("assigned", a, None, b) for a in ASSIGNED for b in ASSIGNED if a != b]
+    seen = set()
+    for kind, pn, pt, arg in jobs:
+        try:
+            check_special(kind, pn, pt, arg, rec)
+        except Violation as v:
+            if v.signature not in seen:
+                seen.add(v.signature)
+                rec.fail(v.signature, dict(kind="special", how=kind, parent=pn, arg=arg), v.observed, v.expected)
+
+
 def check_installed(name, version, recipe, rec=None):
     from metador_core.plugins import schemas
 
@@ -471,7 +549,8 @@ def check_installed(name, version, recipe, rec=None):
 
 def plan(tier, seed):
     sh = [dict(name=f"pairs-{i}", kind="pairs", i=i) for i in range(NSHARD)]
-    sh += [dict(name="extra-rule", kind="extra"), dict(name="sticky-register", kind="sticky", how="register"),
+    sh += [dict(name="special", kind="special"),
+           dict(name="extra-rule", kind="extra"), dict(name="sticky-register", kind="sticky", how="register"),
            dict(name="sticky-ep", kind="sticky", how="ep")]
     inst = G.installed_schemas()
     sh += [dict(name=f"installed-{n}", kind="installed", schema=n, version=list(v)) for n, v, _ in inst]
@@ -502,6 +581,8 @@ def run_shard(shard, tier, seed, rec):
                             rec.fail(v.signature, dict(kind="pair", parent=pn, child=cn, shape=shape), v.observed, v.expected)
         rec.exhaustive["type_pool_pairs_x_shapes"] = True
         rec.notes.append(f"pool of {len(names)} field types, {len(CORPUS)} corpus values, {len(SHAPES)} chain shapes")
+    elif k == "special":
+        run_special(rec)
     elif k == "extra":
         check_extra_rule(rec)
         check_recursive_siblings(rec)
@@ -566,6 +647,9 @@ def replay(rp, rec):
             check_pair(case["parent"], P[case["parent"]], case["child"], P[case["child"]], case["shape"], rec)
         elif case.get("kind") == "installed":
             check_installed(case["schema"], case["version"], case["recipe"], rec)
+        elif case.get("kind") == "special":
+            P = pool()
+            check_special(case["how"], case["parent"], P.get(case["parent"], PLAIN.get(case["parent"])), case["arg"], rec)
         elif case.get("kind") == "extra":
             check_extra_rule(rec)
         elif case.get("kind") == "recursive":
